@@ -891,4 +891,93 @@ example : (T.trackNewT Gen.Sem.trackNew erroredPinState (pinCid 0) .pin .queued)
 example : T.statusT Gen.Sem.trackerStatus .unpin .inProgress = some .unpinning := by decide
 example : T.recT Gen.Sem.recoverWith .unexpectedlyUnpinned true true = some (some (.pin, true)) := by decide
 
+/-! ### round 8c: the tracker's ENTRY POINTS as regenerated tables — `enqueue`, `Track` (kind decision), `Untrack`, `Recover` were
+    text-snapshot only. -/
+
+/-- `Tracker.enqueue` (nil when `TrackNewOperation` answers nil / channel chosen by the type / non-blocking send, or `ErrFullQueue`
+    with `SetError; Cancel` when the channel has no room): the regenerated table, executed, is the model's `enqueue` — every
+    configuration, state, pin, for both types that reach it. -/
+theorem gen_table_enqueue (cfg : Cfg) (s : State) (p : PinSpec) (typ : OpType) (ht : typ ≠ .remote) :
+    T.enqueueT Gen.Sem.enqueue cfg s p typ = some (enqueue cfg s p typ) := T.enqueueT_eq cfg s p typ ht
+
+/-- `Tracker.Track`'s kind decision for EVERY pin: meta ↦ nothing; remote for this peer ↦ `TrackNewOperation(remote, in-progress)`, nil if
+    ongoing, else the synchronous unpin call is issued; allocated here ↦ `enqueue(pin)`. The table executed up to the call is `track`,
+    whatever the call will answer (`e`). -/
+theorem gen_table_track (cfg : Cfg) (s : State) (p : PinSpec) (e : Bool) :
+    T.trackT Gen.Sem.track cfg s p e = some (track cfg s p) := T.trackT_eq cfg s p e
+
+/-- ... and after the synchronous call answered: error ↦ `Cancel; SetError`, no `Clean` (= the operation record `retErr` writes, the entry
+    stays: status unpin-side error); nil ↦ `Cancel; SetPhase(Done); Clean` (= `retOk`). -/
+theorem gen_table_track_sync (s : State) (i : Nat) (k : Call) (hf : findCall s i = some k) (hc : (s.ops i).cancelled = false) :
+    (retErr s i).ops i = T.runOp (T.trackAfter Gen.Sem.track false) (s.ops i) ∧ (retErr s i).cur = s.cur ∧
+    (T.trackAfter Gen.Sem.track false).contains .clean = false ∧
+    (k.eff = true → (retOk s i).ops i = T.runOp (T.trackAfter Gen.Sem.track true) (s.ops i) ∧ (retOk s i).cur = (T.cleanM s i).cur) ∧
+    (T.trackAfter Gen.Sem.track true).contains .clean = true := by
+  refine ⟨?_, (T.retErr_is_table s i k hf hc).2, T.track_after_err.2, ?_, T.track_after_ok.2⟩
+  · rw [(T.retErr_is_table s i k hf hc).1, T.apply_err.2, T.track_after_err.1]
+  · intro he
+    refine ⟨?_, (T.retOk_is_table s i k false hf hc he).2⟩
+    rw [(T.retOk_is_table s i k false hf hc he).1, (T.apply_ok false).2, T.track_after_ok.1]
+
+/-- `Untrack(c)` is `enqueue(api.PinCid(c), unpin)` and nothing else. -/
+theorem gen_table_untrack (env : T.Atom → Bool) (cfg : Cfg) (s : State) (c : Nat) :
+    T.firstRow Gen.Sem.untrack env = some [.retEnqueueUnpinCid] ∧
+    untrack cfg s c = enqueue cfg { s with shared := upd s.shared c none, failed := upd s.failed c false } (pinCid c) .unpin :=
+  ⟨rfl, rfl⟩
+
+/-- `Recover(c)` hands `recoverWithPinInfo` the table entry's status when there is one, else `Status(c)`: the model's `recover`. -/
+theorem gen_table_recover (cfg : Cfg) (s : State) (c : Nat) :
+    T.recoverT Gen.Sem.recover cfg s c = some (recover cfg s c) := T.recoverT_eq cfg s c
+
+theorem gen_table_known_c :
+    (T.known Gen.Sem.enqueue && T.known Gen.Sem.track && T.known Gen.Sem.untrack && T.known Gen.Sem.recover) = true := T.tables_known_c
+
+/-- a realistic wrong edit of `enqueue` as a table: the full-queue branch returns `ErrFullQueue` but does not `SetError` (the refused
+    operation stays `pin_queued` for ever — `full_queue_reported` fails). It is NOT `enqueue`: queue size 0, first Track. -/
+def noSetErrorTable : T.Table := [
+  { lits := [(.opNil, true)], acts := [.trackNewQ, .retNil] },
+  { lits := [(.opNil, false), (.typIs .pin, true), (.sendOk, true)], acts := [.trackNewQ, .chPin, .send, .retNil] },
+  { lits := [(.opNil, false), (.typIs .pin, true), (.sendOk, false)], acts := [.trackNewQ, .chPin, .errFull, .cancel, .retErr] },
+  { lits := [(.opNil, false), (.typIs .unpin, true), (.sendOk, true)], acts := [.trackNewQ, .chUnpin, .send, .retNil] },
+  { lits := [(.opNil, false), (.typIs .unpin, true), (.sendOk, false)], acts := [.trackNewQ, .chUnpin, .errFull, .cancel, .retErr] } ]
+
+def herePin0 : PinSpec := { cid := 0, kind := .here, mode := .recursive, tag := 1 }
+
+theorem enqueue_without_setError_refuted :
+    ¬ (∀ cfg s p typ, typ ≠ .remote → T.enqueueT noSetErrorTable cfg s p typ = some (enqueue cfg s p typ)) := by
+  intro h
+  have h1 := h { cap := 0, workers := 1, ncids := 1 } init herePin0 .pin (by decide)
+  have h2 : (T.enqueueT noSetErrorTable { cap := 0, workers := 1, ncids := 1 } init herePin0 .pin).map (fun r => statusOf r.1 0)
+      = some .pinQueued := by decide
+  have h3 : (some (enqueue { cap := 0, workers := 1, ncids := 1 } init herePin0 .pin)).map (fun r => statusOf r.1 0)
+      = some .pinError := by decide
+  rw [h1] at h2; rw [h2] at h3; exact absurd h3 (by decide)
+
+/-- the other wrong edit: the channel is chosen with the cases swapped (a pin sent to the unpin worker) -/
+def swappedChanTable : T.Table := [
+  { lits := [(.opNil, true)], acts := [.trackNewQ, .retNil] },
+  { lits := [(.opNil, false), (.typIs .pin, true), (.sendOk, true)], acts := [.trackNewQ, .chUnpin, .send, .retNil] },
+  { lits := [(.opNil, false), (.typIs .pin, true), (.sendOk, false)], acts := [.trackNewQ, .chUnpin, .errFull, .setError, .cancel, .retErr] },
+  { lits := [(.opNil, false), (.typIs .unpin, true), (.sendOk, true)], acts := [.trackNewQ, .chPin, .send, .retNil] },
+  { lits := [(.opNil, false), (.typIs .unpin, true), (.sendOk, false)], acts := [.trackNewQ, .chPin, .errFull, .setError, .cancel, .retErr] } ]
+
+theorem enqueue_swapped_channel_refuted :
+    ¬ (∀ cfg s p typ, typ ≠ .remote → T.enqueueT swappedChanTable cfg s p typ = some (enqueue cfg s p typ)) := by
+  intro h
+  have h1 := h { cap := 1, workers := 1, ncids := 1 } init herePin0 .pin (by decide)
+  have h2 : (T.enqueueT swappedChanTable { cap := 1, workers := 1, ncids := 1 } init herePin0 .pin).map (fun r => r.1.pinQ) = some [] := by decide
+  have h3 : (some (enqueue { cap := 1, workers := 1, ncids := 1 } init herePin0 .pin)).map (fun r => r.1.pinQ) = some [0] := by decide
+  rw [h1] at h2; rw [h2] at h3; exact absurd h3 (by decide)
+
+example : (T.enqueueT Gen.Sem.enqueue { cap := 0, workers := 1, ncids := 1 } init herePin0 .pin).map (fun r => (r.2, statusOf r.1 0))
+    = some (.full, .pinError) := by decide
+example : (T.enqueueT Gen.Sem.enqueue { cap := 1, workers := 1, ncids := 1 } init herePin0 .pin).map (fun r => (r.2, r.1.pinQ, statusOf r.1 0))
+    = some (.nil, [0], .pinQueued) := by decide
+example : (T.trackT Gen.Sem.track { cap := 1, workers := 1, ncids := 1 } init (pinCid 0) true).map (fun r => (r.1.calls.length, statusOf r.1 0))
+    = some (1, .remote) := by decide
+example : (T.trackT Gen.Sem.track { cap := 1, workers := 1, ncids := 1 } init { herePin0 with kind := .sharded } true).map
+    (fun r => (r.1.calls.length, statusOf r.1 0)) = some (0, .sharded) := by decide
+example : T.recoverT Gen.Sem.recover { cap := 1, workers := 1, ncids := 1 } erroredPinState 0
+    = some (recover { cap := 1, workers := 1, ncids := 1 } erroredPinState 0) := gen_table_recover _ _ _
+
 end CV.C05
